@@ -1520,6 +1520,7 @@ func main() {
 			fmt.Fprintf(os.Stderr, "leaf: %s:%s untranslatable: %s\n", t.Dir, t.Func, info.Error)
 		}
 	}
+	b.WriteString(paramsModule(infos)) // ext_isostat.go: the parameter NAMES of every definition, for obligations that pin them
 	if err := os.WriteFile(*out, []byte(b.String()), 0o644); err != nil {
 		fmt.Fprintln(os.Stderr, err)
 		os.Exit(2)
